@@ -96,11 +96,11 @@ def run(ctx):
     entries = [n for n in prog.fns() if any(re.search(p, n) for p in NEW_API) and '{closure' not in n
                and prog.bodies[n].get('vis') == 'pub' and not prog.bodies[n].get('deprecated')]
     ctx.floor('non-deprecated public entry points checked', len(entries), 100, rule='C24-D2')
-    # a deprecated fn is a stop node: reaching a writer through it is the documented legacy behaviour
+    # a non-deprecated entry point that reaches a writer -- also through a deprecated shim -- makes the new API depend on per-thread state
     stop = set(n for n in prog.fns() if prog.bodies[n].get('deprecated'))
     bad = 0
     for e in entries:
-        reach, parent = prog.reach_from([e], stop=stop)
+        reach, parent = prog.reach_from([e])
         hit = reach & writers
         ctx.analysed(e, 0)
         if hit:
